@@ -467,9 +467,12 @@ def _greedy_post(E, ctx, outs, mode, wit):
         E.oblige("C02.utilities_shape", st, z3.And(to_int(U.shape[0]) == bs, to_int(U.shape[1]) == NC))
         E.oblige("C02.non_candidates_are_NaN", st, z3.ForAll([t2, j], z3.Implies(z3.And(inr, z3.Not(is_cand(j))), Un)))
         E.oblige("C02.earlier_picks_are_NaN", st, z3.ForAll([t, t2], z3.Implies(z3.And(0 <= t, t < t2, t2 < bs), to_real(U.sel(t2, qa(t)))[0])))
-        w = wit(t2, posof(j))
-        E.oblige("C02.a_NaN_candidate_was_picked_in_an_earlier_step", st, z3.ForAll([t2, j], z3.Implies(z3.And(inr, is_cand(j), Un),
-                 z3.And(0 <= w, w < t2, qa(w) == j))))
+        cases = wit(t2, posof(j))
+        if not isinstance(cases, list):
+            cases = [("", z3.BoolVal(True), cases)]
+        for cname, cond, w in cases:          # one obligation per case of the witness (keeps every query small)
+            E.oblige("C02.a_NaN_candidate_was_picked_in_an_earlier_step" + cname, st, z3.ForAll([t2, j], z3.Implies(z3.And(inr, is_cand(j), Un, cond),
+                     z3.And(0 <= w, w < t2, qa(w) == j))))
         E.oblige("C02.pick_t_is_maximal_in_row_t", st, z3.ForAll([t2, j], z3.Implies(z3.And(inr, z3.Not(Un)), z3.And(z3.Not(qn), Uv <= qv))))
 
 
@@ -523,7 +526,9 @@ def unit_greedy_target(mode):
 
                 def wit(t2, p, bx=bx, inv=inv):
                     picked_x = z3.Not(GSEL(0, bx)[p])
-                    return z3.If(t2 <= bx, GW(0, t2, p), z3.If(picked_x, GW(0, bx, p), bx + GW(1, t2 - bx, inv(p))))
+                    return [(".during_the_first_phase", t2 < bx, GW(0, t2, p)),
+                            (".second_phase.picked_in_the_first", z3.And(t2 >= bx, picked_x), GW(0, bx, p)),
+                            (".second_phase.picked_in_the_second", z3.And(t2 >= bx, z3.Not(picked_x)), bx + GW(1, t2 - bx, inv(p)))]
             elif len(calls) == 1 and aw:
                 kw = calls[0][2]["kw"]
                 first_phase = kw.get("method") == "x"
